@@ -561,7 +561,30 @@ func KnownUnsafe(n *Node, reach string) string {
 	if depth >= 2 && (direct(t) || t.Kind() == reflect.Struct) || depth >= 3 {
 		return "top-level-pointer-to-pointer-to-pointer-shaped"
 	}
+	if hasNestedDoublePointer(n, false) {
+		return "nested-pointer-to-pointer"
+	}
 	return ""
+}
+
+// hasNestedDoublePointer: a **T somewhere INSIDE a container or struct (element, map value, member).  The library's results for
+// such values depend on stale memory (nil-pointer panics that come and go between runs), so they cannot be compared case by case.
+func hasNestedDoublePointer(n *Node, inside bool) bool {
+	if n == nil {
+		return false
+	}
+	if inside && n.Kind == "ptr" && n.Elem != nil && n.Elem.Kind == "ptr" {
+		return true
+	}
+	if n.Kind == "struct" {
+		for _, f := range n.Fields {
+			if hasNestedDoublePointer(f, true) {
+				return true
+			}
+		}
+		return false
+	}
+	return hasNestedDoublePointer(n.Elem, inside || n.Kind != "ptr")
 }
 
 func hasDirectArrayNode(n *Node) bool {
